@@ -1,7 +1,7 @@
 #!/bin/sh
-# run every quick check with several seeds; print one line per run (development aid)
+# run every quick check (or those in $SWEEP_CHECKS) with several seeds; print one line per run (development aid)
 for seed in "$@"; do
-  for n in 01 02 03 04 05 06 07 08 09 10 11 12 13 14 15 16 17 18 19; do
+  for n in ${SWEEP_CHECKS:-01 02 03 04 05 06 07 08 09 10 11 12 13 14 15 16 17 18 19}; do
     out=$(VERIF_SEED=$seed ./check C$n --tier quick --no-evidence 2>&1); rc=$?
     echo "seed=$seed C$n rc=$rc $(echo "$out" | grep -E 'tier=quick' | cut -c1-120)"
     if [ $rc -ne 0 ]; then bad=1; echo "$out" | grep -E "VIOLATION|failure key|INCONCLUSIVE|HARNESS" | cut -c1-300 | head -5; fi
